@@ -1,1 +1,44 @@
-From CG Require Import Spec.Sets.
+(* Props/C16.v — C16: overlapping(point) returns the full intervals in effect at that instant.
+   Statements only (Proofs/Overlap.v).  [ov_expected env e p] = the members of the unbounded
+   evaluation [ref env e] whose span contains p, unclipped. *)
+From CG Require Import Proofs.Defs Spec.TransformSpec Proofs.Overlap.
+
+(* stored timelines: exactly the stored events containing p, whole — no hypotheses *)
+Theorem C16_stored : forall env evs p x,
+  In x (overlapping env (Stored evs) p) <-> In x evs /\ fstart x <= p < fend x.
+Proof. exact overlapping_stored_in. Qed.
+Print Assumptions C16_stored.
+
+(* unions, leaf filters, buffers of stored timelines, nested in any way *)
+Theorem C16_leaves : forall env e p, ov_leaf e = true ->
+  Permutation (overlapping env e p) (ov_expected env e p).
+Proof. exact overlapping_leaf_spec. Qed.
+Print Assumptions C16_leaves.
+
+(* difference: the surviving fragment around p carved by ALL subtractors however far they
+   reach; nothing when p is removed; source events may overlap each other *)
+Theorem C16_difference : forall env evs subss p,
+  Forall wf_ivl evs -> Forall canon_ivl evs -> Forall (Forall wf_ivl) subss ->
+  Permutation (overlapping env (Diff (Stored evs) (map Stored subss)) p)
+              (ov_expected env (Diff (Stored evs) (map Stored subss)) p).
+Proof. exact diff_overlapping_spec_gen. Qed.
+Print Assumptions C16_difference.
+
+(* complement: nothing when p is covered (always); otherwise the entire gap around p with None
+   on an open side — for non-overlapping sources (the left edge uses the reverse sweep, KF-D3) *)
+Theorem C16_complement_covered : forall env evs p,
+  covers evs p = true -> overlapping env (Compl (Stored evs)) p = [].
+Proof. exact compl_overlapping_covered. Qed.
+Print Assumptions C16_complement_covered.
+
+Theorem C16_complement_partial : forall env evs p,
+  Forall wf_ivl evs -> disjoint_sorted (sl_build evs) -> NEG_INF <= p -> p + 1 < POS_INF ->
+  overlapping env (Compl (Stored evs)) p = ov_expected env (Compl (Stored evs)) p.
+Proof. exact compl_overlapping_expected. Qed.
+Print Assumptions C16_complement_partial.
+
+Theorem C16_complement_nested_refuted :
+  overlapping [] (Compl (Stored [mkI (Some 2) (Some 5) (Rich 2); mkI (Some 3) (Some 4) (Rich 3)])) 7
+  = [mkI (Some 4) None Plain].
+Proof. exact compl_overlapping_nested_refuted. Qed.
+Print Assumptions C16_complement_nested_refuted.
